@@ -4,6 +4,7 @@
 -/
 import MosVerif.Lemmas.Ttl
 import MosVerif.Lemmas.TtlHist
+import MosVerif.Lemmas.TtlSpec
 import MosVerif.Generated.Facts
 namespace MosVerif.C08
 open MosVerif.Ttl
@@ -29,30 +30,8 @@ theorem lifetime_bounds (m : Msg) (cfgMax : Int) (h1 : -9223372037 < cfgMax) (h2
     ((getMinimalTTL m).2 = false → storeTtl m (initMaxTtl cfgMax) ≤ 30 * second) ∧
     ((getMinimalTTL m).2 = true → 1 ≤ (getMinimalTTL m).1.toNat →
         storeTtl m (initMaxTtl cfgMax) ≤ (getMinimalTTL m).1.toNat * second) ∧
-    ((getMinimalTTL m).2 = true → (getMinimalTTL m).1.toNat = 0 → storeTtl m (initMaxTtl cfgMax) = second) := by
-  have hcapv := initMaxTtl_eq cfgMax h1 h2
-  have hcap : second ≤ initMaxTtl cfgMax := by
-    rw [hcapv]; unfold defaultMaxCacheTtl second; split <;> omega
-  rw [storeTtl_eq]
-  have hb := baseTtl_bounds m.rcode (getMinimalTTL m).1.toNat (getMinimalTTL m).2
-  have hc := clampTtl_bounds _ (initMaxTtl cfgMax) hcap hb.1
-  generalize baseTtl m.rcode (getMinimalTTL m).1.toNat (getMinimalTTL m).2 = B at hb hc ⊢
-  generalize clampTtl B (initMaxTtl cfgMax) = L at hc ⊢
-  generalize (getMinimalTTL m).1.toNat = u at hb ⊢
-  obtain ⟨-, b3, b2, b5, bno, bhas⟩ := hb
-  obtain ⟨c1, c2, c3, c4⟩ := hc
-  unfold defaultMaxCacheTtl at hcapv
-  unfold second at *
-  refine ⟨c1, c2, ?_, ?_, ?_, ?_, ?_, ?_, ?_, ?_⟩
-  · intro h; rw [hcapv] at c2; simp only [h, if_true] at c2; omega
-  · intro h; rw [hcapv] at c2; have : ¬ cfgMax ≤ 0 := by omega
-    simp only [this, if_false] at c2; exact c2
-  · intro h; have := b3 h; omega
-  · intro h; have := b2 h; omega
-  · intro h0 h2' h3; have := b5 h0 h2' h3; omega
-  · intro h; have := bno h; omega
-  · intro h hu; have := bhas h; omega
-  · intro h hu; have := bhas h; omega
+    ((getMinimalTTL m).2 = true → (getMinimalTTL m).1.toNat = 0 → storeTtl m (initMaxTtl cfgMax) = second) :=
+  lifetimeBounds m cfgMax h1 h2
 
 /-- the floor and the cap alone: for any positive cap the result is positive and at most the cap -/
 theorem storeTtl_range (m : Msg) (cap : Int) (hc : 0 < cap) :
@@ -102,21 +81,14 @@ theorem negative_never_displaces_live_positive (clock : Nat → Nat) (cfg : Cfg)
     (now delay id : Nat) (e : Entry) (hneg : m.rcode ≠ 0) (hlive : mem k = some e) :
     cacheStore clock cfg mem k (some m) now delay id = mem ∧
     ∀ t, cacheGet clock (cacheStore clock cfg mem k (some m) now delay id) k t = cacheGet clock mem k t := by
-  have h : cacheStore clock cfg mem k (some m) now delay id = mem := by
-    unfold cacheStore
-    cases hs : store cfg.hasBackend (some m) cfg.maximumTtl with
-    | none => rfl
-    | some c =>
-      have hc := store_some _ _ _ _ hs
-      have hnx : c.setNX = true := by rw [hc.2.2.2.2]; simp [hneg]
-      simp [otterSet, hnx, hlive]
+  have h := cacheStore_neg_present clock cfg mem k m now delay id e hneg hlive
   exact ⟨h, fun t => by rw [h]⟩
 
 /-- by contrast a positive response (rcode 0) is stored with Set and replaces whatever is there -/
 theorem positive_replaces (clock : Nat → Nat) (cfg : Cfg) (mem : Mem) (k : Nat) (m : Msg) (now delay id : Nat)
     (hb : cfg.hasBackend = true) (htc : m.tc = false) (hpos : m.rcode = 0) :
-    ∃ e, cacheStore clock cfg mem k (some m) now delay id k = some e ∧ e.msg = m ∧ e.id = id ∧ e.stored = now := by
-  simp [cacheStore, store, hb, htc, hpos, otterSet, Mem.set]
+    ∃ e, cacheStore clock cfg mem k (some m) now delay id k = some e ∧ e.msg = m ∧ e.id = id ∧ e.stored = now :=
+  cacheStore_pos clock cfg mem k m now delay id hb htc hpos
 
 /-- non-vacuity: a live positive entry, an NXDOMAIN for the same key, the entry is still served -/
 example :
@@ -222,59 +194,6 @@ example :
 
 /-! ### the executable specification accepts the model -/
 
-theorem le_max1_min (L : Int) (a b : Nat) (ha : L ≤ (Nat.max 1 a : Nat) * 1000000000)
-    (hb : L ≤ (Nat.max 1 b : Nat) * 1000000000) : L ≤ (Nat.max 1 (Nat.min a b) : Nat) * 1000000000 := by
-  simp only [Nat.max_def, Nat.min_def] at *
-  split at ha <;> split at hb <;> (repeat' split) <;> omega
-
-theorem le_max1 (L : Int) (a : Nat) (ha : L ≤ (a : Nat) * 1000000000) : L ≤ (Nat.max 1 a : Nat) * 1000000000 := by
-  simp only [Nat.max_def]
-  split <;> omega
-
-/-- the policy's lifetime never exceeds the lifetime of the property text (at least one second) -/
-theorem storeTtl_le_spec (m : Msg) (cfgMax : Int) (h1 : -9223372037 < cfgMax) (h2 : cfgMax < 9223372037) :
-    storeTtl m (initMaxTtl cfgMax) ≤ (Nat.max 1 (specLifetime m cfgMax) : Nat) * 1000000000 := by
-  obtain ⟨b1, -, bd, bc, b3, b2, b5, bno, bhas, bzero⟩ := lifetime_bounds m cfgMax h1 h2
-  generalize storeTtl m (initMaxTtl cfgMax) = L at *
-  unfold second at *
-  -- the cap
-  have hcap : L ≤ (Nat.max 1 (specCap cfgMax) : Nat) * 1000000000 := by
-    apply le_max1
-    unfold specCap
-    by_cases hc : cfgMax ≤ 0
-    · have := bd hc; simp only [hc, if_true]; omega
-    · have := bc (by omega); simp only [hc, if_false]; omega
-  -- the records
-  have hrec : L ≤ (Nat.max 1 (match specMinTtl m with | none => specCap cfgMax | some t => Nat.min t (specCap cfgMax)) : Nat) * 1000000000 := by
-    rcases getMinimalTTL_eq m with ⟨hs, hg⟩ | ⟨t, hs, hg2, hg1⟩
-    · rw [hs]; exact hcap
-    · rw [hs]
-      apply le_max1_min _ _ _ _ hcap
-      by_cases ht : 1 ≤ t
-      · have := bhas hg2 (by omega); rw [hg1] at this
-        apply le_max1; omega
-      · have := bzero hg2 (by omega)
-        have ht0 : t = 0 := by omega
-        subst ht0
-        show L ≤ ((1 : Nat) : Int) * 1000000000
-        omega
-  unfold specLifetime
-  apply le_max1_min _ _ _ hrec
-  by_cases r3 : m.rcode = 3
-  · have := b3 r3; rw [if_pos r3]; apply le_max1; omega
-  · rw [if_neg r3]
-    by_cases r2 : m.rcode = 2
-    · have := b2 r2; rw [if_pos r2]; apply le_max1; omega
-    · rw [if_neg r2]
-      by_cases r0 : m.rcode = 0
-      · rw [if_neg (by simp [r0])]
-        rcases getMinimalTTL_eq m with ⟨hs, hg⟩ | ⟨t, hs, hg2, hg1⟩
-        · have := bno (by rw [hg]); rw [hs]; simp only [Option.isNone_none, if_true]; apply le_max1; omega
-        · rw [hs] at hrec ⊢; simpa using hrec
-      · have := b5 r0 r2 r3
-        rw [if_pos r0]
-        apply le_max1; omega
-
 /-- ★ (ttlpolicy/store) the model's "Store, then Get at once" outcome satisfies the executable specification,
     for every response, backend presence and configured maximum (seconds·10⁹ within int64). -/
 theorem store_model_meets_spec (hasBackend : Bool) (cfgMax : Int) (h1 : -9223372037 < cfgMax)
@@ -328,6 +247,30 @@ example : specServed 9 ⟨0, false, [⟨1, 7⟩], [], []⟩ ⟨0, false, [⟨1, 
 theorem minttl_model_meets_spec (m : Msg) : specMin m (getMinimalTTL m) = true := getMinimalTTL_spec m
 
 example : specMin ⟨0, false, [⟨1, 7⟩, ⟨41, 2⟩], [], [⟨1, 9⟩]⟩ (2, true) = false := by decide
+
+/-- ★ (ttlpolicy/hist) For every history of harness events (Store, Store(nil), lookup, client query with any
+    upstream outcome; any keys, messages, planned times in order) and every configured maximum: the
+    observations of the model satisfy the executable specification written from the property text — provenance
+    (only fetched, non-truncated responses are ever served), lifetime bound, "not served after lifetime + 2 s",
+    aged TTLs, and "an error response never displaces a live positive entry". -/
+theorem hist_model_meets_spec (cfgMax : Int) (h1 : -9223372037 < cfgMax) (h2 : cfgMax < 9223372037)
+    (evs : List Ev) (hsorted : sortedEvs evs = true) (hkinds : ∀ e ∈ evs, e.kind ≤ 3) :
+    specHist cfgMax evs (modelHist cfgMax evs) = true := by
+  unfold specHist modelHist
+  exact run_spec cfgMax h1 h2 evs hsorted hkinds evs 0 Mem.empty (hinv_start cfgMax evs) (by intro i; simp)
+
+/-- the specification of histories is not vacuous: it rejects an entry served 3 s after a 1 s lifetime, an
+    NXDOMAIN that displaced a live positive entry, a cached answer to a failed exchange, an un-aged TTL -/
+example : specHist 0 [⟨0, 0, 1, .reply ⟨0, false, [⟨1, 1⟩], [], []⟩⟩, ⟨3500, 2, 1, .err⟩]
+    [.none, .hit ⟨0, 1000000000, 0, ⟨0, false, [⟨1, 1⟩], [], []⟩, 1⟩ ⟨0, false, [⟨1, 1⟩], [], []⟩] = false := by decide
+example : specHist 0 [⟨0, 0, 1, .reply ⟨0, false, [⟨1, 60⟩], [], []⟩⟩, ⟨0, 0, 1, .reply ⟨3, false, [], [], []⟩⟩, ⟨0, 2, 1, .err⟩]
+    [.none, .none, .hit ⟨0, 30000000000, 0, ⟨3, false, [], [], []⟩, 2⟩ ⟨3, false, [], [], []⟩] = false := by decide
+example : specHist 0 [⟨0, 3, 1, .err⟩, ⟨0, 2, 1, .err⟩]
+    [.q .failed, .hit ⟨0, 1000000000, 0, ⟨2, false, [], [], []⟩, 0⟩ ⟨2, false, [], [], []⟩] = false := by decide
+example : specHist 0 [⟨0, 0, 1, .reply ⟨0, false, [⟨1, 60⟩], [], []⟩⟩, ⟨2300, 2, 1, .err⟩]
+    [.none, .hit ⟨0, 60000000000, 0, ⟨0, false, [⟨1, 60⟩], [], []⟩, 1⟩ ⟨0, false, [⟨1, 60⟩], [], []⟩] = false := by decide
+example : specHist 0 [⟨0, 0, 1, .reply ⟨0, false, [⟨1, 60⟩], [], []⟩⟩, ⟨2300, 2, 1, .err⟩]
+    [.none, .hit ⟨0, 60000000000, 0, ⟨0, false, [⟨1, 60⟩], [], []⟩, 1⟩ ⟨0, false, [⟨1, 58⟩], [], []⟩] = true := by decide
 
 /-! ### tie: pinned source facts -/
 
